@@ -338,6 +338,27 @@ type Outcome struct {
 	// Second is a second reply produced by the same step to another request (cancel-wait).
 	SecondReq  [16]byte
 	SecondPred *Pred
+	// NonSeq: this outcome applies a PIPELINE non-sequentially (finding F3); it is offered only so
+	// that the step can be recognised, and is reported as a C15 violation when it matches.
+	NonSeq bool
+}
+
+// hasPipeline reports whether a value-operation frame is a PIPELINE of two or more operations.
+func hasPipeline(frame []byte) bool {
+	typ, _, payload, ok := parseFrame(frame)
+	if !ok || typ != protocol.LOCK_DATA_COMMAND_TYPE_PIPELINE {
+		return false
+	}
+	n := 0
+	for i := 0; i+4 <= len(payload); {
+		l := int(le32(payload[i:]))
+		if i+4+l > len(payload) {
+			break
+		}
+		n++
+		i += 4 + l
+	}
+	return n >= 2
 }
 
 type ReqView struct {
@@ -505,8 +526,10 @@ func nextLock(s *MKey, r ReqView, cfg ModelCfg, sameDeadline func(h *MHold) (kno
 	}
 	if canTry && s.admissible(op.Count) {
 		outs = append(outs, grant())
-		if waitedPath && isPrio(op.TFlag) && len(s.Waiters) == 0 && op.Rcount == 0 {
-			// priority 0 against an empty queue: whether it counts as "beating" the queue is open
+		if waitedPath && isPrio(op.TFlag) {
+			// a priority request that beats the live queue may be granted at once; the server may
+			// also compare it with the priority of an entry that is already dead but not yet
+			// discarded and queue it (no property forbids queueing)
 			outs = append(outs, queueOrTimeout())
 		}
 		return outs
